@@ -103,7 +103,10 @@ CaseSpec == CaseInit /\ [][CaseNext]_vars
 
 \* ---- sanity invariants of the definitions, checked on every case
 A(bs) == Allowed(bs, cs.now, cs.n, cs.reason)
-Extras == {ListAlphabet[i] : i \in DOMAIN ListAlphabet} \cup MalBudgets
+MinTxt(S) == CHOOSE t \in S : TRUE
+\* budgets added / removed by the monotonicity invariant: the list alphabet and one malformed entry of each kind
+Extras == {ListAlphabet[i] : i \in DOMAIN ListAlphabet}
+          \cup {m \in MalBudgets : m.mal = "duration-only" \/ m.txt = MinTxt({x.txt : x \in {y \in MalBudgets : y.mal = m.mal}})}
 WellFormedCase == \A i \in DOMAIN cs.budgets : ~Malformed(cs.budgets[i])
 
 \* Allowed never exceeds any active applicable budget's value
